@@ -11,7 +11,14 @@ Nothing here imports jsonargparse.  Everything is a JSON value:
   "a" (argv) or "c" (--config file); alt picks the other one of the two values of the type; layout = positionals or
   options first; style = ``--name=value`` or ``--name value``; cfg = one top-level config with nested sections or one
   config per parser level; cfgpos = --config after the other tokens of its level; sib = the top-level config also
-  holds a complete section for that sibling leaf.
+  holds a complete section for that sibling leaf; ``"selcfg": k`` = the tokens of the last k sub-command levels are
+  not written on the command line, those levels are selected by an explicit ``"subcommand"`` key in the top-level
+  config (their parameters can then only come from that config or be omitted).
+* class programs: ``"mkind"`` / ``"m2kind"`` = kind of the method m1 / m2 ("inst" | "cls" = @classmethod | "static" =
+  @staticmethod; default "inst"); ``"inh"`` = which members the class K given to auto_cli merely inherits from a base
+  class B ("" none | "meth" the methods | "init" the constructor | "all" both, K's body is ``pass``).
+* mixed programs: ``"nmeth": 2`` gives the class the second method m2; ``"nest": 1`` puts the class one level deeper
+  (``{"fa": fa, "grp": {"K": K}}`` instead of ``[fa, K]``).
 * ``program["flip"] = 1`` makes every parameter use the other default and the other value (the choice between the two
   is otherwise fixed by the parity of position + role, so that same-named parameters of two components differ).
 
@@ -124,6 +131,8 @@ def is_required(param):
 # programs -> stages
 
 
+KINDS = ("inst", "cls", "static")  # kinds of public methods: plain, @classmethod, @staticmethod
+INHERIT = ("", "meth", "init", "all")  # what the class given to auto_cli inherits from its base class instead of defining it
 DECOY_M2 = [["int", 1, "P"], ["str", 1, "K"]]  # second method of two-method classes: m2(self, p0: int = .., *, z: str = ..)
 
 
@@ -140,8 +149,11 @@ def leaves(program):
 
     flip = program.get("flip", 0)  # 1: every component uses the other default / the other value at every position
 
-    def st(token, sig, role, callee, ret, nm=None):
-        return {"token": token, "sig": sig, "names": nm or names(sig), "role": role + flip, "callee": callee, "ret": ret}
+    def st(token, sig, role, callee, ret, nm=None, mkind=None):
+        out = {"token": token, "sig": sig, "names": nm or names(sig), "role": role + flip, "callee": callee, "ret": ret}
+        if mkind is not None:
+            out["mkind"] = mkind
+        return out
 
     if form == "func":
         return [[st(None, program["sig"], 0, "fa", "token")]]
@@ -164,16 +176,23 @@ def leaves(program):
     if form == "class":
         init, meth = program["init"], program["meth"]
         mnames = names(meth, "p" if program["naming"] == "shared" else "q")
-        out = [[st(None, init, 0, "K.__init__", None), st("m1", meth, 1, "K.m1", "token", mnames)]]
+        k1, k2 = program.get("mkind", "inst"), program.get("m2kind", "inst")
+        out = [[st(None, init, 0, "K.__init__", None), st("m1", meth, 1, "K.m1", "token", mnames, k1)]]
         if program["nmeth"] == 2:
-            out.append([st(None, init, 0, "K.__init__", None), st("m2", DECOY_M2, 1, "K.m2", "token", ["p0", "z"])])
+            out.append([st(None, init, 0, "K.__init__", None), st("m2", DECOY_M2, 1, "K.m2", "token", ["p0", "z"], k2)])
         return out
-    if form == "mixed":  # [function, class]: two levels of sub-commands for the class
+    if form == "mixed":  # [function, class]: two (nest: three) levels of sub-commands for the class
         init, meth = program["init"], program["meth"]
-        return [
-            [st(None, [], 0, None, None), st("fa", rotate(init, 3), 1, "fa", "token")],
-            [st(None, [], 0, None, None), st("K", init, 0, "K.__init__", None), st("m1", meth, 1, "K.m1", "token")],
+        k1, k2 = program.get("mkind", "inst"), program.get("m2kind", "inst")
+        g = lambda tok: st(tok, [], 0, None, None)  # noqa: E731
+        pre = [g(None), g("grp")] if program.get("nest") else [g(None)]
+        out = [
+            [g(None), st("fa", rotate(init, 3), 1, "fa", "token")],
+            pre + [st("K", init, 0, "K.__init__", None), st("m1", meth, 1, "K.m1", "token", None, k1)],
         ]
+        if program.get("nmeth", 1) == 2:
+            out.append(pre + [st("K", init, 0, "K.__init__", None), st("m2", DECOY_M2, 1, "K.m2", "token", ["p0", "z"], k2)])
+        return out
     raise AssertionError(form)
 
 
@@ -189,8 +208,8 @@ def given(param, i, role, alt):
 # source rendering
 
 
-def _params_src(sig, names, role, is_method):
-    parts = ["self"] if is_method else []
+def _params_src(sig, names, role, is_method, mkind="inst"):
+    parts = ([] if mkind == "static" else ["cls"] if mkind == "cls" else ["self"]) if is_method else []
     star = False
     for i, (p, n) in enumerate(zip(sig, names)):
         if p[2] == "K" and not star:
@@ -216,9 +235,12 @@ def _func_src(name, stage, indent="", is_method=False, body_extra=""):
             f"{pad}self._id = _log({stage['callee']!r}, {_logdict(names)})",
         ]
     elif is_method:
-        lines = [
-            f"{indent}def {name}({_params_src(sig, names, role, True)}):",
-            f"{pad}_log({stage['callee']!r}, {_logdict(names)}, getattr(self, '_id', 'no-id'))",
+        mkind = stage.get("mkind") or "inst"
+        deco = {"inst": [], "cls": [f"{indent}@classmethod"], "static": [f"{indent}@staticmethod"]}[mkind]
+        owner = {"inst": "getattr(self, '_id', 'no-id')", "cls": "'class:' + cls.__name__", "static": "'static'"}[mkind]
+        lines = deco + [
+            f"{indent}def {name}({_params_src(sig, names, role, True, mkind)}):",
+            f"{pad}_log({stage['callee']!r}, {_logdict(names)}, {owner})",
             f"{pad}return _token({stage['callee']!r})",
         ]
     else:
@@ -233,12 +255,19 @@ def _func_src(name, stage, indent="", is_method=False, body_extra=""):
 def _class_src(program):
     lv = leaves(program)
     init = next(s for s in lv[-1] if s["callee"] == "K.__init__")
-    out = "class K:\n" + _func_src("__init__", init, "    ") + "\n"
+    init_src = _func_src("__init__", init, "    ") + "\n"
+    meth_src = ""
     for leaf in lv:
         m = leaf[-1]
         if m["callee"].startswith("K.m"):
-            out += _func_src(m["token"], m, "    ", is_method=True) + "\n"
-    return out
+            meth_src += _func_src(m["token"], m, "    ", is_method=True) + "\n"
+    inh = program.get("inh", "")
+    if not inh:
+        return "class K:\n" + init_src + meth_src
+    # members K merely inherits are defined in the base class B (which is not handed to auto_cli)
+    base = (init_src if inh in ("init", "all") else "") + (meth_src if inh in ("meth", "all") else "")
+    own = (init_src if inh == "meth" else "") + (meth_src if inh == "init" else "")
+    return "class B:\n" + base + "\nclass K(B):\n" + (own or "    pass\n")
 
 
 def source(program):
@@ -290,6 +319,8 @@ def components(program, mod):
     if form == "class":
         return mod.K
     if form == "mixed":
+        if program.get("nest"):
+            return {"fa": mod.fa, "grp": {"_help": "a group", "K": mod.K}}
         return [mod.fa, mod.K]
     raise AssertionError(form)
 
@@ -311,6 +342,10 @@ def build(stages, inp, all_leaves=None):
     """
     as_pos, layout, style, cfg_level = inp["as_pos"], inp["layout"], inp["style"], inp["cfg"]
     assign = inp["assign"]
+    # the levels from `cut` on are not selected by a token on the command line but by "subcommand" keys in the config
+    cut = len(stages) - inp.get("selcfg", 0)
+    if cut < 1:
+        return None
     missing, calls, per_stage = [], [], []
     for si, stage in enumerate(stages):
         sig, names, role = stage["sig"], stage["names"], stage["role"]
@@ -334,6 +369,8 @@ def build(stages, inp, all_leaves=None):
             src, tok, cval = given(p, i, role, alt)
             kwargs[n] = src
             if ch == "a":
+                if si >= cut:
+                    return None  # nothing of a level can be on the command line without the level's token
                 if pos:
                     if not prefix_open:
                         return None  # a later positional on the command line while an earlier one is not
@@ -349,7 +386,7 @@ def build(stages, inp, all_leaves=None):
                     pos_from_cfg = True
         per_stage.append((opts, poss, cfgd, pos_from_cfg, pos_missing))
         if stage["callee"]:
-            calls.append([stage["callee"], kwargs])
+            calls.append([stage["callee"], kwargs, stage.get("mkind")])
     # command line, level by level
     levels, files, top_cfg = [], [], Sec()
     cfg_last = inp.get("cfgpos", "first") == "last"
@@ -361,8 +398,12 @@ def build(stages, inp, all_leaves=None):
         opts, poss, cfgd, pos_from_cfg, pos_missing = per_stage[si]
         head = []
         if stage["token"] is not None:
-            if blocked_at is not None:
-                if opts or poss or (cfgd and cfg_level != "top"):
+            if si >= cut:
+                if cfgd and cfg_level != "top":
+                    return None
+                node["subcommand"] = stage["token"]  # explicit selection in the section of the level above
+            elif blocked_at is not None:
+                if opts or poss or (cfgd and cfg_level != "top") or cut < len(stages):
                     return None
                 if blocked_by_cfg and not missing and not cfgd:
                     return None  # the sub-command has to be selected through a non-empty section of the config
@@ -381,8 +422,9 @@ def build(stages, inp, all_leaves=None):
         if (pos_from_cfg or pos_missing) and blocked_at is None:
             blocked_at, blocked_by_cfg = si, not pos_missing
     if inp.get("sib") is not None:
-        # the top-level config also carries a complete section for a sibling component that is not selected
-        if blocked_at is not None or all_leaves is None:
+        # the top-level config also carries a complete section for a sibling component that is not selected; not
+        # when a level is selected only implicitly (by being the only section present)
+        if all_leaves is None or (blocked_at is not None and blocked_at + 1 < cut):
             return None
         node, shared = top_cfg, True
         for si, st in enumerate(all_leaves[inp["sib"]]):
@@ -401,8 +443,11 @@ def build(stages, inp, all_leaves=None):
     if missing:
         return {"argv": argv, "files": files, "expect": {"kind": "exit2", "missing": missing}}
     out_calls = []
-    for idx, (callee, kwargs) in enumerate(calls):
-        owner = idx - 1 if callee.startswith("K.m") else None  # a method runs on the object its __init__ call built
+    for idx, (callee, kwargs, mkind) in enumerate(calls):
+        owner = None
+        if callee.startswith("K.m"):
+            # a method runs on the object its __init__ call built, a classmethod on the class given to auto_cli
+            owner = {"cls": "class:K", "static": "static"}.get(mkind, idx - 1)
         out_calls.append([callee, kwargs, owner])
     return {"argv": argv, "files": files, "expect": {"kind": "ok", "calls": out_calls, "ret": stages[-1]["ret"]}}
 
@@ -431,8 +476,10 @@ def _flat(stages):
     return [(si, i) for si, s in enumerate(stages) for i in range(len(s["sig"]))]
 
 
-def _inp(sel, assign, as_pos=True, layout="ol", style="eq", cfg="top", cfgpos="first", sib=None):
+def _inp(sel, assign, as_pos=True, layout="ol", style="eq", cfg="top", cfgpos="first", sib=None, selcfg=0):
     out = {"sel": sel, "as_pos": as_pos, "assign": assign, "layout": layout, "style": style, "cfg": cfg}
+    if selcfg:
+        out["selcfg"] = selcfg  # the last `selcfg` sub-command levels are selected by "subcommand" keys in the config
     if cfgpos != "first":
         out["cfgpos"] = cfgpos  # --config written after the other tokens of its level instead of before them
     if sib is not None:
@@ -552,6 +599,41 @@ def full_inputs(sel, stages, nleaves=1):
             yield inp
 
 
+def selcfg_inputs(sel, stages, nleaves=1, slim=False):
+    """Sub-commands selected through the config instead of the command line.
+
+    For every k = 1 .. number of sub-command levels: the tokens of the last k levels are left out and each of those
+    levels is named by an explicit "subcommand" key in the top-level config; alone and together with a complete
+    section for each other leaf of the program (sections of siblings at the selected level or elsewhere).
+    Assignments, for every (k, sibling): everything in the config with as_positional=False; the levels that still
+    have their token give their parameters on the command line, the others in the config; each required one
+    omitted.  Without sibling section additionally: only the required parameters; everything in the config with
+    as_positional=True; the other value of every parameter with --config as the last token.
+    slim (used for the leaves that are not the enumerated one, so that the selected sub-command is also one that
+    is not the first of its level): only "everything in the config with as_positional=False" per (k, sibling)."""
+    n = len(stages)
+    for k in range(1, n):
+        cut = n - k
+        for sib in [None] + [j for j in range(nleaves) if j != sel]:
+            kw = {"selcfg": k, "sib": sib}
+            yield _inp(sel, _all(stages, "c"), as_pos=False, **kw)
+            if slim:
+                continue
+            yield _inp(sel, [[["a" if si < cut else "c", 0] for _ in s["sig"]] for si, s in enumerate(stages)], **kw)
+            for si, i in _required(stages):
+                a = _all(stages, "c")
+                a[si][i] = ["-", 0]
+                yield _inp(sel, a, as_pos=False, **kw)
+            if sib is None:
+                yield _inp(
+                    sel,
+                    [[[("a" if si < cut else "c") if is_required(p) else "-", 0] for p in s["sig"]] for si, s in enumerate(stages)],
+                    **kw,
+                )
+                yield _inp(sel, _all(stages, "c"), **kw)
+                yield _inp(sel, _all(stages, "c", 1), as_pos=False, cfgpos="last", **kw)
+
+
 def product_inputs(sel, stages):
     """{omitted, argv, config}^parameters (config at the top level and, for staged forms, at the component's own
     level) plus each required parameter omitted; none of the variation axes of the full plan."""
@@ -583,12 +665,14 @@ def decoy1_inputs(sel, stages):
     yield _inp(sel, _all(stages, "a"))
 
 
-PLANS = {"full": full_inputs, "product": product_inputs, "lean": lean_inputs, "lean3": lean3_inputs, "decoy": decoy_inputs, "decoy1": decoy1_inputs}
+PLANS = {"argv": decoy1_inputs, "full": full_inputs, "product": product_inputs, "lean": lean_inputs, "lean3": lean3_inputs, "decoy": decoy_inputs, "decoy1": decoy1_inputs}
 
 
 def inputs(program, plan):
-    """All inputs of a program.  `plan` = plan of the enumerated leaf/leaves ("full" | "lean" | "lean3"), optionally
-    suffixed ":deep" (dict form: only the deepest leaf) or ":first" (lean3: omit only the first required parameter)."""
+    """All inputs of a program.  `plan` = plan of the enumerated leaf/leaves ("full" | "lean" | "lean3" | "argv" =
+    everything on the command line, nothing else), optionally
+    suffixed ":deep" (dict form: only the deepest leaf), ":first" (lean3: omit only the first required parameter) or
+    ":sel" (additionally `selcfg_inputs`: sub-commands selected through the config, with and without sibling sections)."""
     plan, _, opt = plan.partition(":")
     lv = leaves(program)
     form = program["form"]
@@ -607,3 +691,5 @@ def inputs(program, plan):
             yield from lean3_inputs(sel, stages, first_only=True)
         else:
             yield from PLANS[plan if main else ("decoy" if plan == "full" else "decoy1")](sel, stages)
+        if opt == "sel":
+            yield from selcfg_inputs(sel, stages, len(lv), slim=not main)
